@@ -842,7 +842,8 @@ class RouterAnalysis:
                      key=f'CR.1|unlocked|{g}|{strip_targs(unl[0].cls)}::{unl[0].field}' if unl else None)
             seenw = set()
             for a in ws:
-                k = f'CR.1|readlock-write|{g}|{strip_targs(a.cls)}::{a.field}|{common.finding_fn(a)}'
+                ff_ = common.finding_fn(a)
+                k = f'CR.1|readlock-write|{g}|{strip_targs(a.cls)}{("::" + a.field) if ">" not in ff_ else ""}|{ff_}'
                 if k in seenw: continue
                 seenw.add(k)
                 self.add('CR.1', False, f'{g}: writes under the read lock', a.site,
